@@ -151,50 +151,7 @@ func runC12(p *core.Program, r *core.Report) {
 
 	// R12.2b consecutive slices, R12.3 exact consumption
 	pv := core.NewProver(fn)
-	loops := core.Loops(fn)
-	nSl := 0
-	core.Instrs(fn, func(in ssa.Instruction) {
-		sl, ok := in.(*ssa.Slice)
-		if !ok {
-			return
-		}
-		if _, isStrSlice := sl.X.Type().Underlying().(*types.Slice); !isStrSlice || sl.X.Type().String() != "[]string" {
-			return
-		}
-		l := core.InnermostLoop(loops, sl.Block())
-		if l == nil || sl.Low == nil || sl.High == nil {
-			return
-		}
-		nSl++
-		pos := p.InstrPos(sl)
-		phi, ok := sl.Low.(*ssa.Phi)
-		okPhi := ok && phi.Block() == l.Header
-		if okPhi {
-			for i, e := range phi.Edges {
-				if l.Blocks[phi.Block().Preds[i]] {
-					if e != sl.High && !advancedUnlessError(e, phi, sl.High, l) {
-						okPhi = false
-					}
-				} else if z, isC := core.ConstInt(e); !isC || z != 0 {
-					okPhi = false
-				}
-			}
-		}
-		r.Check(okPhi, "R12.2b", name, "token slice starts where the previous one ended (low = phi(0, high))", pos, "low bound is "+core.Describe(sl.Low))
-		// high = low + int(byte of ti)
-		okHi := false
-		if bo, ok := sl.High.(*ssa.BinOp); ok && bo.Op == token.ADD {
-			other := bo.Y
-			if bo.Y == sl.Low {
-				other = bo.X
-			}
-			if (bo.X == sl.Low || bo.Y == sl.Low) && isIndexByte(other, ti) {
-				okHi = true
-			}
-		}
-		r.Check(okHi, "R12.2b", name, "token length is the index byte (high = low + int(index[j]))", pos, "high bound is "+core.Describe(sl.High))
-	})
-	r.Floor("R12.2b", "token slices taken in loops", nSl, 3)
+	checkConsecutiveSlices(p, r, fn, ti)
 	// "never fake text": token values are cut from the string itself (= C11 R11.5 re-run)
 	r.Borrow("R12.2b", func() { checkDecodedValuesArePieces(p, r, fn) })
 
@@ -358,4 +315,54 @@ func advancedUnlessError(e ssa.Value, header *ssa.Phi, high ssa.Value, l *core.L
 		}
 	}
 	return true
+}
+
+// checkConsecutiveSlices: R12.2b (also run by C11: the decoder cuts the string into
+// consecutive pieces whose lengths are the index bytes).
+func checkConsecutiveSlices(p *core.Program, r *core.Report, fn *ssa.Function, ti ssa.Value) {
+	name := core.FuncName(fn)
+	loops := core.Loops(fn)
+	nSl := 0
+	core.Instrs(fn, func(in ssa.Instruction) {
+		sl, ok := in.(*ssa.Slice)
+		if !ok {
+			return
+		}
+		if _, isStrSlice := sl.X.Type().Underlying().(*types.Slice); !isStrSlice || sl.X.Type().String() != "[]string" {
+			return
+		}
+		l := core.InnermostLoop(loops, sl.Block())
+		if l == nil || sl.Low == nil || sl.High == nil {
+			return
+		}
+		nSl++
+		pos := p.InstrPos(sl)
+		phi, ok := sl.Low.(*ssa.Phi)
+		okPhi := ok && phi.Block() == l.Header
+		if okPhi {
+			for i, e := range phi.Edges {
+				if l.Blocks[phi.Block().Preds[i]] {
+					if e != sl.High && !advancedUnlessError(e, phi, sl.High, l) {
+						okPhi = false
+					}
+				} else if z, isC := core.ConstInt(e); !isC || z != 0 {
+					okPhi = false
+				}
+			}
+		}
+		r.Check(okPhi, "R12.2b", name, "token slice starts where the previous one ended (low = phi(0, high))", pos, "low bound is "+core.Describe(sl.Low))
+		// high = low + int(byte of ti)
+		okHi := false
+		if bo, ok := sl.High.(*ssa.BinOp); ok && bo.Op == token.ADD {
+			other := bo.Y
+			if bo.Y == sl.Low {
+				other = bo.X
+			}
+			if (bo.X == sl.Low || bo.Y == sl.Low) && isIndexByte(other, ti) {
+				okHi = true
+			}
+		}
+		r.Check(okHi, "R12.2b", name, "token length is the index byte (high = low + int(index[j]))", pos, "high bound is "+core.Describe(sl.High))
+	})
+	r.Floor("R12.2b", "token slices taken in loops", nSl, 3)
 }
